@@ -23,10 +23,10 @@ theorem blockAt_any (s : Bytes) (p : Nat) (out : Bytes) (p1 : Nat) (out1 : Bytes
 
 /-- **The spec decoder only looks at the bits of the stream**: a buffer that has the same bits up to the
 end of the final block decodes to the same output. -/
-theorem blocks_local (s : Bytes) : ∀ (fuel n p : Nat) (out : Bytes) (pE : Nat) (T : Bytes), RReach s n p out →
+theorem blocks_local (D s : Bytes) : ∀ (fuel n p : Nat) (out : Bytes) (pE : Nat) (T : Bytes), RReach D s n p out →
     blocks s none 0 fuel p out = ⟨.done, pE, T⟩ →
     ∀ s'' : Bytes, (∀ i, i < pE → bitAt s'' i = bitAt s i) → pE ≤ 8 * s''.size →
-      Spec.inflate s'' = some (T, (pE + 7) / 8) := by
+      blocks s'' none 0 (8 * s''.size + 1) 0 D = ⟨.done, pE, T⟩ := by
   intro fuel
   induction fuel with
   | zero => intro n p out pE T _ h; simp [blocks] at h
@@ -39,21 +39,27 @@ theorem blocks_local (s : Bytes) : ∀ (fuel n p : Nat) (out : Bytes) (pE : Nat)
     have hp3 := hblk.1
     rcases hfin with ⟨h1, h2, h3⟩ | ⟨h0, hcont⟩
     · subst h2; subst h3
-      exact good_final s s s'' n p out p1 out1 hr hblk (fun i hi => hag i (by omega)) (by rw [hag p (by omega)]; exact h1)
+      exact good_final D s s s'' n p out p1 out1 hr hblk (fun i hi => hag i (by omega)) (by rw [hag p (by omega)]; exact h1)
         (fun i _ hi => hag i hi) hsz
     · exact ih (n + 1) p1 out1 pE T (RReach.step hr h0 hblk) hcont s'' hag hsz
 
-theorem inflate_local (s s'' T : Bytes) (n0 : Nat) (h : Spec.inflate s = some (T, n0))
+/-- … also with a preset dictionary. -/
+theorem inflateDict_local (dict s s'' T : Bytes) (n0 : Nat) (h : Spec.inflateDict dict s = some (T, n0))
     (hag : ∀ j, j < n0 → s''.getD j 0 = s.getD j 0) (hsz : n0 ≤ s''.size) :
-    Spec.inflate s'' = some (T, n0) := by
-  obtain ⟨pE, hblk, hn0⟩ := inflate_blocks s T n0 h
-  have := blocks_local s _ 0 0 #[] pE T RReach.zero hblk s''
+    Spec.inflateDict dict s'' = some (T, n0) := by
+  obtain ⟨pE, hblk, hn0⟩ := (inflateDict_blocks dict s T n0).mp h
+  have := blocks_local (truncDict dict) s _ 0 0 _ pE _ RReach.zero hblk s''
     (by
       intro i hi
       simp only [bitAt]
       rw [hag (i / 8) (by omega)])
     (by omega)
-  rw [this, hn0]
+  exact (inflateDict_blocks dict s'' T n0).mpr ⟨pE, this, hn0⟩
+
+theorem inflate_local (s s'' T : Bytes) (n0 : Nat) (h : Spec.inflate s = some (T, n0))
+    (hag : ∀ j, j < n0 → s''.getD j 0 = s.getD j 0) (hsz : n0 ≤ s''.size) :
+    Spec.inflate s'' = some (T, n0) :=
+  inflateDict_local #[] s s'' T n0 h hag hsz
 
 theorem adlerUpdate_lt (l : List UInt8) (a b : Nat) (ha : a < 65521) (hb : b < 65521) :
     (l.foldl (fun (st : Nat × Nat) x => ((st.1 + x.toNat) % adlerMod, (st.2 + (st.1 + x.toNat) % adlerMod) % adlerMod)) (a, b)).1 < 65521 ∧
@@ -102,7 +108,8 @@ theorem Cut_prefix (s T : Spec.Bytes) (n : Nat) (limit : Int) (r : CutResult)
     (hz : Spec.zlibDecode #[] s = some (T, n)) (hnd : ¬ ((s.getD 1 0).toNat / 32 % 2 = 1))
     (hT : T.size < 2147483648) (h : ZlibCut.Cut s limit = .ok r) :
     Spec.zlibDecode #[] (r.encoded.extract 0 r.encodedLen) = some (T.extract 0 r.decodedLen, r.encodedLen) ∧
-    r.decodedLen ≤ T.size ∧ r.written = T.extract 0 r.decodedLen := by
+    r.decodedLen ≤ T.size ∧ r.written = T.extract 0 r.decodedLen ∧
+    (r.encoded.extract 0 r.encodedLen).getD 1 0 = s.getD 1 0 := by
   -- the original stream
   simp only [Spec.zlibDecode] at hz
   split at hz
@@ -157,7 +164,7 @@ theorem Cut_prefix (s T : Spec.Bytes) (n : Nat) (limit : Int) (r : CutResult)
     rw [hpsz] at b2 b3
     have g3 := g3 rfl
     simp only []
-    refine ⟨?_, g2, g3⟩
+    suffices hmain : _ ∧ _ from ⟨hmain.1, g2, g3, hmain.2⟩
     generalize hH : adler32 r'.written = H
     have hHlt : H < 4294967296 := by rw [← hH]; exact adler32_lt _
     generalize hE0 : s.extract 0 2 ++ r'.encoded ++ s.extract (s.size - 4) s.size = E0
@@ -202,6 +209,15 @@ theorem Cut_prefix (s T : Spec.Bytes) (n : Nat) (limit : Int) (r : CutResult)
       rw [← hEd]
       have := getD_extract_bytes E4 0 (2 + r'.encodedLen + 4) j (by omega) (by omega)
       simpa using this
+    have e1' : E.getD 1 0 = s.getD 1 0 := by
+      rw [hEget 1 (by omega), hE4get 1]
+      have : ¬ (1 = 2 + r'.encodedLen) := by omega
+      have : ¬ (1 = 2 + r'.encodedLen + 1) := by omega
+      have : ¬ (1 = 2 + r'.encodedLen + 2) := by omega
+      have : ¬ (1 = 2 + r'.encodedLen + 3) := by omega
+      simp only [*, if_false]
+      exact hE0lo 1 (by omega)
+    refine ⟨?_, e1'⟩
     -- decode the result
     simp only [Spec.zlibDecode]
     have d1 : ¬ (E.size < 2) := by omega
